@@ -603,7 +603,9 @@ func (em *emitter) emitCallNode(call *ast.Call, goStmt bool, deferStmt bool, toF
 			em.fb.emitGo()
 		}
 		if deferStmt {
-			panic(internalError("not implemented"))
+			args := stackDifference(em.fb.currentStackShift(), stackShift)
+			em.fb.emitDefer(method, 0, stackShift, args, funTi.Type)
+			return regs, types
 		}
 		em.fb.emitCallIndirect(method, 0, stackShift, call.Pos(), funTi.Type, toFormat)
 		return regs, types
@@ -693,7 +695,11 @@ func (em *emitter) emitCallNode(call *ast.Call, goStmt bool, deferStmt bool, toF
 					em.fb.emitGo()
 				}
 				if deferStmt {
-					panic(internalError("not implemented"))
+					args := stackDifference(em.fb.currentStackShift(), stackShift)
+					reg := em.fb.newRegister(reflect.Func)
+					em.fb.emitLoadFunc(false, index, reg)
+					em.fb.emitDefer(reg, runtime.NoVariadicArgs, stackShift, args, fun.Type)
+					return regs, types
 				}
 				if fun.Macro {
 					em.fb.emitCallMacro(index, stackShift, call.Pos(), toFormat)
